@@ -201,4 +201,13 @@ def standin_large_results(tier, seed):
                 cases=cases, distinct=cases, failures=len(fails), exhaustive=False, _fails=fails[:3])
 standin_large_results.prop = "C18"
 
-STANDINS = [standin_views, standin_numpy_digits, standin_state_histogram, standin_large_results]
+def standin_packed_storage(tier, seed):
+    """bit-packed storage of records (Quantum Engine result messages; shared with C16): per-qubit packed bits decoded by hand, and the
+    round trip through results_to_proto / results_from_proto, for permuted qubit orders, several instances and lengths around byte boundaries"""
+    from contracts.C16_roundtrips import standin_results_roundtrip as f
+
+    r = dict(f(tier, seed))
+    r["case"] = "packed-storage"
+    return r
+standin_packed_storage.prop = "C18"
+STANDINS = [standin_views, standin_numpy_digits, standin_state_histogram, standin_large_results, standin_packed_storage]
